@@ -287,6 +287,23 @@ func CryptoDoc(kind, marker string, container string) []byte {
 				o.body = strings.TrimSuffix(o.body, ">>") + fmt.Sprintf("/Annots[%s]>>", Ref(an))
 			}
 		}
+	case "indirect-private":
+		// strings in objects of their own that nothing but a private key refers to (validation never looks at
+		// them): a dictionary, an array, a string literal and a hex string, each an indirect object; and the
+		// annotation's /Contents as an indirect string object
+		pg := firstPageRef(d)
+		pd := d.Add(fmt.Sprintf("<</S(%s-pdict)/H<%x>/N<</D(%s-pnested)>>>>", marker, marker+"-phex", marker))
+		pa := d.Add(fmt.Sprintf("[(%s-parr)[(%s-parr2)]]", marker, marker))
+		ps := d.Add(fmt.Sprintf("(%s-pstr)", marker))
+		ph := d.Add(fmt.Sprintf("<%x>", marker+"-phexobj"))
+		pc := d.Add(fmt.Sprintf("(%s-pcontents)", marker))
+		an := d.Add(fmt.Sprintf("<</Type/Annot/Subtype/Text/Rect[10 10 50 50]/Contents %s/P %s/VerifPrivate<</A %s/B %s/C %s/D %s>>>>", Ref(pc), pg, Ref(pd), Ref(pa), Ref(ps), Ref(ph)))
+		for _, nr := range sortedKeys(d.objs) {
+			if Ref(nr) == pg {
+				o := d.objs[nr]
+				o.body = strings.TrimSuffix(o.body, ">>") + fmt.Sprintf("/Annots[%s]>>", Ref(an))
+			}
+		}
 	case "annotation":
 		pg := firstPageRef(d)
 		an := d.Add(fmt.Sprintf("<</Type/Annot/Subtype/Text/Rect[10 10 50 50]/Contents(%s-annot)/T<%x>/P %s>>", marker, marker+"-author", pg))
@@ -375,7 +392,7 @@ func CryptoDoc(kind, marker string, container string) []byte {
 }
 
 // CryptoKinds lists the location kinds of CryptoDoc.
-var CryptoKinds = []string{"plain", "nested", "annotation", "attachment", "outline", "xmp", "filters", "blockaligned", "sigdict", "sigdict-untyped", "streamdict"}
+var CryptoKinds = []string{"plain", "nested", "indirect-private", "annotation", "attachment", "outline", "xmp", "filters", "blockaligned", "sigdict", "sigdict-untyped", "streamdict"}
 
 // FormDoc builds small AcroForm documents by hand.
 //   "flat-own-da":      AcroForm without /DA; one top-level text field carrying its own /DA
